@@ -24,10 +24,11 @@ LIST_CATEGORIES = {"taxonomy", "KEGG_Pathways", "collapsed_ids"}
 
 
 def _text(v):
-    if isinstance(v, bytes):
-        return v.decode("utf8")
-    if isinstance(v, np.bytes_):
-        return bytes(v).decode("utf8")
+    if isinstance(v, (bytes, np.bytes_)):
+        try:
+            return bytes(v).decode("utf8")
+        except UnicodeDecodeError:
+            return None
     if isinstance(v, (str, np.str_)):
         return str(v)
     return None
